@@ -70,6 +70,9 @@ pub struct EngineJob {
     /// bytes for each party's delta (needs `probes`)
     #[serde(default)]
     pub fields: bool,
+    /// C04(c): recompute the public coins from the coin-toss openings seen on the wire
+    #[serde(default)]
+    pub predict: bool,
     /// scan the raw bytes sent by party h for this bit pattern (C06 canary): (party, bits)
     #[serde(default)]
     pub canary: Option<(usize, Vec<bool>)>,
@@ -157,7 +160,7 @@ pub fn run_engine(job: &EngineJob, work: &std::path::Path) -> EngineRun {
     {
         let mut nb = net.borrow_mut();
         nb.record_events = job.events;
-        nb.record_content = job.content || !job.content_phases.is_empty() || job.fields || job.canary.is_some();
+        nb.record_content = job.content || !job.content_phases.is_empty() || job.fields || job.canary.is_some() || job.predict;
     }
     let applied = Rc::new(RefCell::new(vec![false; job.devs.len()]));
     if !job.devs.is_empty() {
@@ -407,6 +410,9 @@ pub fn to_ndjson(job: &EngineJob, r: &EngineRun, out: &mut Vec<String>) {
         out.push(json!({"ev": "fields", "vals": vals.iter().map(|v| crate::adv::limbs(*v)).collect::<Vec<_>>(),
                         "undecoded": undecoded, "raw": raw, "messages": net.msgs.len()}).to_string());
     }
+    if job.predict {
+        predict(job, &net.msgs, out);
+    }
     if let Some((h, bits)) = &job.canary {
         // the party's plain input bits packed LSB-first and MSB-first into bytes
         let pack = |msb: bool| -> Vec<u8> {
@@ -432,4 +438,79 @@ pub fn to_ndjson(job: &EngineJob, r: &EngineRun, out: &mut Vec<String>) {
                "sched": r.schedule.iter().map(|(p,d,q)| json!([p, d, q])).collect::<Vec<_>>() })
         .to_string(),
     );
+}
+
+
+/// C04(c): what an observer of the wire can compute from the coin-toss openings
+/// ("RNG ver"): the seed of every pairwise stream and of the multi-party stream,
+/// hence the first KOS check coefficient of every pair and the bucket permutation
+/// of the first aAND batch -- together with the moment (event sequence number) from
+/// which they are known and the moments at which the data under check is sent.
+fn predict(job: &EngineJob, msgs: &[crate::exec::MsgRec], out: &mut Vec<String>) {
+    use rand::{RngCore, SeedableRng, seq::SliceRandom};
+    use rand_chacha::ChaCha20Rng;
+    let n = job.circuit.n();
+    let body = |m: &crate::exec::MsgRec| -> Option<[u8; 32]> {
+        // Vec<u8> of length 32 in bincode legacy: u64 length + bytes
+        if m.sent.len() == 40 { m.sent[8..40].try_into().ok() } else { None }
+    };
+    // k-th "RNG ver" message per ordered pair: 0 = pairwise toss, 1 = multi-party toss
+    let mut seen: std::collections::HashMap<(usize, usize), usize> = Default::default();
+    let mut pair: std::collections::HashMap<(usize, usize), ([u8; 32], usize)> = Default::default();
+    let mut multi: Vec<Option<([u8; 32], usize)>> = vec![None; n];
+    for m in msgs.iter().filter(|m| m.phase == "RNG ver") {
+        let k = seen.entry((m.from, m.to)).or_insert(0);
+        if let Some(b) = body(m) {
+            if *k == 0 {
+                pair.insert((m.from, m.to), (b, m.seq));
+            } else if *k == 1 && multi[m.from].is_none() {
+                multi[m.from] = Some((b, m.seq));
+            }
+        }
+        *k += 1;
+    }
+    for a in 0..n {
+        for b in (a + 1)..n {
+            if let (Some((x, s1)), Some((y, s2))) = (pair.get(&(a, b)), pair.get(&(b, a))) {
+                let seed: [u8; 32] = std::array::from_fn(|i| x[i] ^ y[i]);
+                let mut rng = ChaCha20Rng::from_seed(seed);
+                let mut chi = [0u8; 16];
+                rng.fill_bytes(&mut chi);
+                out.push(json!({"ev": "predict", "name": "kos_chi", "a": a, "b": b,
+                                "val": crate::adv::limbs(u128::from_ne_bytes(chi)), "known_at": (*s1).max(*s2)}).to_string());
+            }
+        }
+    }
+    if multi.iter().all(|m| m.is_some()) {
+        let mut seed = [0u8; 32];
+        let mut known = 0;
+        for m in multi.iter().flatten() {
+            for i in 0..32 {
+                seed[i] ^= m.0[i];
+            }
+            known = known.max(m.1);
+        }
+        let c = &job.circuit;
+        let sb: usize = c.input_regs.iter().sum::<usize>() + c.and_ops;
+        let batch = sb.min(sb.div_ceil(9).max(1000));
+        let chunks = if batch == 0 { 0 } else { sb.div_ceil(batch) };
+        let abatch = c.and_ops.min(c.and_ops.div_ceil(9).max(1000));
+        if abatch > 0 {
+            let mut rng = ChaCha20Rng::from_seed(seed);
+            // one 16-byte draw per aBit call: the random-share chunks, then the first AND batch
+            for _ in 0..(chunks + 1) {
+                let mut b = [0u8; 16];
+                rng.fill_bytes(&mut b);
+            }
+            let bucket = if abatch >= 280_000 { 3 } else if abatch >= 3_100 { 4 } else { 5 };
+            let mut idx: Vec<usize> = (0..abatch * bucket).collect();
+            idx.shuffle(&mut rng);
+            out.push(json!({"ev": "predict", "name": "bucket_perm", "vals": idx.iter().take(16).collect::<Vec<_>>(),
+                            "lprime": abatch * bucket, "known_at": known}).to_string());
+        }
+    }
+    // when the data under check goes on the wire
+    for m in msgs.iter().filter(|m| m.phase == "ALSZ_OT_setup" || m.phase == "haand") {
+        out.push(json!({"ev": "data", "ph": m.phase, "from": m.from, "to": m.to, "seq": m.seq}).to_string());
+    }
 }
